@@ -47,6 +47,12 @@ BigOK ==
   /\ NGcd(NMul(Big2, <<30>>), NMul(Big2, <<42>>)) = NMul(Big2, <<6>>)
   /\ NFromDigits(<<1, 0, 0, 0, 0, 0, 0, 0, 0, 0, 0, 0, 0>>, 10) = NPow(<<10>>, 12)
   /\ NPow2(100) = NPow(<<2>>, 100)
+  /\ NFromDigits(<<15, 15, 15, 0, 1, 2, 10>>, 16) = NFromInt(268370218)
+  /\ NFromDigits(<<1, 7, 7, 7, 7, 0, 1>>, 8) = NFromInt(524225)
+  /\ NFromDigits(<<1, 0, 1, 1, 0, 0, 0, 0, 0, 0, 0, 0, 0, 1>>, 2) = NFromInt(11265)
+  /\ NFromDigits(<<2, 1, 4, 7, 4, 8, 3, 6, 4, 7>>, 10) = NFromInt(2147483647)
+  /\ NFromDigits(<<4, 0, 9, 6>>, 10) = <<0, 1>>
+  /\ NFromDigits(<<7>>, 10) = <<7>>
   /\ LET x == Z(TRUE, Big1)
          y == Z(FALSE, Big2)
      IN /\ ZEq(ZAdd(ZAnd(x, y), ZOr(x, y)), ZAdd(x, y))
